@@ -22,6 +22,17 @@ Theorem levels_from_source :
   (forall b, In (blevel b, [S (blevel b)]) Facts.loop_levels).
 Proof. exact FactsAgree.precedences_agree. Qed.
 Print Assumptions levels_from_source.
+(* ... and so are the OPERATORS of each level: factgen decodes the token-set test of every alternative of the generated
+   expression(_p) loop (and the LiteralNames table); the model's lexer table has exactly these literals in this order,
+   a punctuation token is a binary operator of level n in the model iff the generated parser accepts it at level n,
+   '?' alone sits at the conditional level, and the unary operators are the generated parser's *)
+Theorem operators_from_source :
+  map fst Lex.puncts = Facts.punct_literals /\ FactsAgree.operator_tables_ok = true /\
+  forall lit p b, In (lit, p) Lex.puncts -> binop_of p = Some b ->
+    In lit (FactsAgree.ops_of_level (blevel b)) /\
+    forall l, In l [2;3;4;5;6]%nat -> l <> blevel b -> ~ In lit (FactsAgree.ops_of_level l).
+Proof. split; [exact FactsAgree.punct_literals_agree|]. split; [exact FactsAgree.operator_tables_agree|]. exact FactsAgree.binop_level_from_source. Qed.
+Print Assumptions operators_from_source.
 
 (* The property demands that ?: binds to the RIGHT. The faithful model refutes it: the generated
    parser groups  a ? b : c ? d : e  as  (a ? b : c) ? d : e  (recorded in KNOWN_FINDINGS.json). *)
